@@ -310,8 +310,10 @@ def check_archive_end(rep):
         raise AnalysisBroken("arSeek: `if (<end test>) { ...; return false; }` not recognised")
     c = strip(ends[0]["c"][0])
     ok = False
-    if c is not None and c["k"] == "BinaryOperator" and c["op"] in (">=", "=="):
+    if c is not None and c["k"] == "BinaryOperator" and c["op"] in (">=", "==", "<="):
         a, b = strip(c["c"][0]), strip(c["c"][1])
+        if c["op"] == "<=":
+            a, b = b, a              # size <= pos
         size_like = b is not None and (b["k"] == "DeclRefExpr" and "size" in b["n"].lower() or common.render(b).startswith("arSize"))
         ok = a is not None and a["k"] == "DeclRefExpr" and a["n"] == pos and size_like
     if ok:
